@@ -67,6 +67,43 @@ theorem shunting_yard_correct {N : Type} [NumOps N] (env : Str → Option (Impl.
     Impl.evalTokens env (render 1 e) = Impl.evalTree env e :=
   Impl.evalTokens_render env e
 
+/-- the same on the real, flat token stream with function calls: for every expression tree of any
+depth whose leaves may be calls `NAME(range, …, range)` (the seven aggregates over one or more
+range arguments, anywhere in the operator tree), the loop of `evalInfixExp` — including its
+in-function branch: function start (opf/opft/args stacks), range arguments with the lookahead
+on the next token, argument separators, and `evalInfixExpFunc` at the function stop moving the
+result to the operand stack or aborting with its error — run on the tokens efp produces
+(`flatten (render 1 e)`) computes the structural evaluator. -/
+theorem shunting_yard_correct_calls {N : Type} [NumOps N] (env : Str → Option (Impl.CellArg N)) (e : Expr) :
+    Impl.evalTokensF env (Impl.flatten (render 1 e)) = Impl.evalTree env e :=
+  Impl.evalTokensF_render env e
+
+/-- a call is the composition of its micro steps: running `fstart`, the range arguments with their
+separators and `fstop` from an idle state pushes the aggregate over all argument cells (or aborts
+with "invalid reference" at the first argument that does not resolve, or with the function's
+error, e.g. AVERAGE without numbers) and returns to the idle state -/
+theorem call_micro_steps {N : Type} [NumOps N] (env : Str → Option (Impl.CellArg N)) (name : Str)
+    (args : List (List Str)) (opd : List (Impl.Arg N)) (opt rest : List Tok) :
+    Impl.runF env (Impl.expandCall name args ++ rest) ((opd, opt), none) =
+      match Impl.callValue env name args with
+      | .error e => .error e
+      | .ok v => Impl.runF env rest ((v :: opd, opt), none) :=
+  Impl.runF_expandCall env name args opd opt rest
+
+/-- non-vacuity: `-MAX(r)*2+1` and `SUM(r1,r2)<0` on the integer instance (cells a=5, b=-3, c="7") -/
+theorem calls_examples :
+    let env : Str → Option (Impl.CellArg Int) := fun k =>
+      if k = [97] then some (.num 5 false) else if k = [98] then some (.num (-3) false)
+      else if k = [99] then some (.str [55]) else none
+    let mx : Expr := .call [77, 65, 88] [[98, 99].map (fun c => [c])]
+    Impl.evalTokensF env (Impl.flatten (render 1
+      (.bin .add (.bin .mul (.neg mx) (.num [50])) (.num [49])))) = .ok (.num 7 false) ∧
+    Impl.evalTokensF env (Impl.flatten (render 1
+      (.bin .lt (.call [83, 85, 77] [[[97]], [[98], [99]]]) (.num [48])))) = .ok (.num 0 true) ∧
+    Impl.flatten (render 1 (.call [83, 85, 77] [[[97]], [[98]]])) =
+      [.fstart [83, 85, 77], .rangeArg [[97]] true, .argsep, .rangeArg [[98]] true, .fstop] := by
+  decide +kernel
+
 /-- the same inside any context: the value of a subexpression never depends on what surrounds it
 (explicit parentheses are transparent) -/
 theorem paren_transparent {N : Type} [NumOps N] (env : Str → Option (Impl.CellArg N)) (e : Expr) :
@@ -840,6 +877,7 @@ def NoDeviant {N : Type} [NumOps N] (envS : Str → Option (Spec.Val N)) : Expr 
   | .logical _ => True
   | .ref _ => True
   | .paren e => NoDeviant envS e
+  | .call _ _ => False   -- aggregate calls: see `aggregate_fold*` and the `agg:*` findings
   | .neg e => NoDeviant envS e ∧ (∀ e', e ≠ .neg e') ∧ NegOK (Spec.eval envS e)
   | .pct e => NoDeviant envS e ∧ PctOK (Spec.eval envS e)
   | .bin op l r => NoDeviant envS l ∧ NoDeviant envS r ∧
@@ -935,6 +973,7 @@ theorem tree_agree {N : Type} [NumOps N] (L : Lawful N) (C : LawfulCmp N)
           cases a <;> simp_all [IsErr, NotErr]
         exact (R_ok _ a hne).mpr (by rw [← hk.2]; rfl)
   | paren e ih => exact ih hN
+  | call n a => exact absurd hN (by simp [NoDeviant])
   | neg e ih =>
     obtain ⟨h1, hnn, h3⟩ := hN
     have ihe := ih h1
@@ -1135,6 +1174,7 @@ theorem mirror_noDeviant {N : Type} [NumOps N] (envS : Str → Option (Spec.Val 
   | logical raw => trivial
   | ref k => trivial
   | paren e ih => exact ih h
+  | call n a => simp [Check.noDeviant] at h
   | neg e ih =>
     simp only [Check.noDeviant, Bool.and_eq_true, Bool.not_eq_true'] at h
     refine ⟨ih h.1.1, ?_, mirror_negOK _ h.2⟩
